@@ -31,10 +31,16 @@ ASSUMPTIONS = [
     "cnf_sound / pol_sound are full theorems for the repaired clean-up (pysmt 7e10806: FALSE_CNF when a clause is emptied); the former witnesses And(a, FALSE), And(FALSE, FALSE), Or(FALSE, FALSE) are directed regression cases (Coq: regression_emptied; harness: first batch)",
     "Ackermannization: models/Ackermann.v is the code repaired by build/fixes/C11_ackermann_nested.diff; ack_shape, ack_complete (f quantifier-free, well-typed, in the C01 fragment okt; I wf_interp; manager knows the symbols of f) and ack_sound (f quantifier-free, J wf_interp) are theorems, nested applications included",
     "FNode.simplify()/get_type() use the GLOBAL environment, so the check makes the fresh Environment of each batch the global one",
+    "the theorems are stated for a NEW converter / Ackermannizer object (start_ok: intro = []; init_astate); REUSE of one object for several formulas (solvers/pico.py keeps one CNFizer) is outside them and is carried by the history families: the Coq models run as histories (state threaded between calls) against the implementation, the equisatisfiability oracles on every call, and for Ackermannization the comparison with a new object's result; on the unchanged code a reused Ackermannizer also emits the consistency implications of applications met in EARLIER formulas - extra conjuncts over extra fresh constants, which keep both clauses of the property (checked by the oracle on every history call)",
 ]
 RULE = ("cases: harness/gen/formulas.py restricted to quantifier-free (theory atoms of every theory, Boolean structure nested in atoms, sharing) "
         "+ a propositional generator with Boolean constants at every position, ITE, IFF, 0/1-ary And/Or and user symbols named FV<n>; "
-        "a fresh pysmt Environment per batch; distinct = distinct (converter, formula structure)")
+        "a fresh pysmt Environment per batch; distinct = distinct (converter, formula structure); "
+        "wide-function family: 2-3 applications of a function of arity 3-4 over 4-5 argument variables with repeated arguments across positions "
+        "(35% the cross arrangement f(a,c,a)/f(b,d,c)), checked exactly over the domain {0,1} with injective and random function tables; "
+        "history families: 2-4 calls on ONE Ackermannizer (later formulas over applications seen before: all/some/none) and on ONE CNFizer / "
+        "PolarityCNFizer (later formulas built from earlier formulas and shared sub-formulas); when the Ackermann correspondence differs an "
+        "escalated search (exact oracle / 80+160 small-domain interpretations per disagreeing input) runs before no-failing-input-found")
 
 KNOWN_EMPTIED = "cnf-cleanup:emptied-clause-dropped"     # fixed in 7e10806: a hit is a regression and is reported
 KNOWN_ACK_NESTED = "ackermann:application-nested-in-non-application-argument"
@@ -124,13 +130,14 @@ def simp_table(env, f):
     return tab
 
 
-def run_converter(kind, env, f):
-    """One conversion by a new converter object.  Returns dict with the manager state before,
-    the clause set, the formula, the state after, or error."""
+def run_converter(kind, env, f, conv=None):
+    """One conversion by a new converter object (or by the given, reused one).  Returns dict with
+    the manager state before, the clause set, the formula, the state after, or error."""
     from pysmt.rewritings import CNFizer, PolarityCNFizer
     m = env.formula_manager
     before = (m._fresh_guess, list(m.symbols.keys()))
-    conv = (CNFizer if kind == "cnf" else PolarityCNFizer)(env)
+    if conv is None:
+        conv = (CNFizer if kind == "cnf" else PolarityCNFizer)(env)
     try:
         cl = conv.convert(f)
         fm = conv.convert_as_formula(f)
@@ -141,18 +148,16 @@ def run_converter(kind, env, f):
             "guess_after": m._fresh_guess, "conv": conv}
 
 
-def case_text(env, r):
-    """(roots, body_fn) for termcases.write."""
+def step_text(env, r):
+    """(roots, body_fn) of one conversion without the converter flag."""
     f = r["f"]
     tab = simp_table(env, f)
     roots = [f]
     for a, b in tab.items():
         roots += [a, b]
-    lits = []
     if r["clauses"] is not None:
-        cls = [list(c) for c in r["clauses"]]
-        for c in cls:
-            roots += c
+        for c in r["clauses"]:
+            roots += list(c)
         roots.append(r["formula"])
     guess, names = r["before"]
 
@@ -163,9 +168,14 @@ def case_text(env, r):
         else:
             exp = "(Some ([%s], %s, %d%%nat))" % ("; ".join("[%s]" % "; ".join(nm[l] for l in c) for c in r["clauses"]),
                                                   nm[r["formula"]], r["guess_after"])
-        return "(%s, %s, %d%%nat, [%s], %s, %s)" % ("true" if r["kind"] == "pol" else "false", nm[f], guess,
-                                                     "; ".join(tocoq.cstr(n) for n in names), t, exp)
+        return "%s, %d%%nat, [%s], %s, %s" % (nm[f], guess, "; ".join(tocoq.cstr(n) for n in names), t, exp)
     return roots, body
+
+
+def case_text(env, r):
+    """(roots, body_fn) for termcases.write."""
+    roots, body = step_text(env, r)
+    return roots, (lambda nm, r=r, body=body: "(%s, %s)" % ("true" if r["kind"] == "pol" else "false", body(nm)))
 
 
 CASE_T = "bool * term * nat * list string * list (term * term) * option (list (list term) * term * nat)"
@@ -179,6 +189,27 @@ Definition ok (c : CASE_T) : bool :=
   | None, None => true
   | _, _ => false
   end.
+"""
+
+
+STEP_T = "term * nat * list string * list (term * term) * option (list (list term) * term * nat)"
+CNF_HIST_OK = """
+(* a history on ONE converter object: _introduced_variables persists between the calls; the
+   manager state is the one observed before each call *)
+Fixpoint run_hist (pol : bool) (steps : list (STEP_T)) (intr : list (term * string)) : bool :=
+  match steps with
+  | [] => true
+  | (f, guess, names, tab, exp) :: r =>
+      let st := {| mgr := {| fresh_guess := guess; mnames := names |}; intro := intr |} in
+      let conv := if pol then pol_convert (table_simp tab) else cnf_convert (table_simp tab) in
+      match conv f st, exp with
+      | Some (cl, st'), Some (ecl, ef, eguess) =>
+          set_eqb clause_eqb cl ecl && ac_eqb (as_formula cl) ef && Nat.eqb (fresh_guess (mgr st')) eguess &&
+          run_hist pol r (intro st')
+      | _, _ => false
+      end
+  end.
+Definition ok (c : bool * list (STEP_T)) : bool := run_hist (fst c) (snd c) [].
 """
 
 
@@ -381,6 +412,8 @@ def cnf_part(chk, rnd, tier):
     per_batch = 40
     cases, meta = [], []
     stats = {"searched": 0, "skipped": 0, "errors": 0}
+    hstats = {"histories": 0, "calls": 0}
+    hcases, hmeta = [], []
     directed_done = False
     for b in range(nbatches):
         env = fresh_env()
@@ -410,8 +443,60 @@ def cnf_part(chk, rnd, tier):
                 chk.count((kind, tocoq.skey(f)), nontrivial=len(f.args()) > 0)
                 search_cnf(chk, env, rnd, r, stats)
                 r["conv"] = None
+        # ---- histories on one converter object (as solvers/pico.py uses its CNFizer) ----
+        from pysmt.rewritings import CNFizer, PolarityCNFizer
+        nh = 6 if tier == "quick" else 15
+        for h in range(nh):
+            for kind in ("cnf", "pol"):
+                conv = (CNFizer if kind == "cnf" else PolarityCNFizer)(env)
+                steps, calls, raised = [], [], False
+                for k in range(rnd.choice([2, 3, 3, 4])):
+                    g = pg.gen(rnd.randint(1, 3))
+                    if calls and rnd.random() < 0.7:
+                        # reuse sub-formulas of earlier calls (whole formulas and pool members)
+                        prev = rnd.choice(calls + pg.pool[-6:])
+                        g = rnd.choice([lambda: m.Or(prev, g), lambda: m.And(g, m.Not(prev)), lambda: m.Iff(prev, g),
+                                        lambda: m.Implies(g, prev), lambda: prev, lambda: m.Not(prev)])()
+                    r = run_converter(kind, env, g, conv=conv)
+                    if r["err"]:
+                        raised = True
+                        break
+                    calls.append(g)
+                    steps.append(step_text(env, r))
+                    hstats["calls"] += 1
+                    chk.count((kind + "-hist", tuple(tocoq.skey(c) for c in calls)), nontrivial=len(g.args()) > 0)
+                    n0 = len(chk.violations)
+                    search_cnf(chk, env, rnd, r, stats)
+                    if len(chk.violations) > n0 and chk.violations[-1][0]:
+                        try:
+                            rep = json.load(open(chk.violations[-1][0]))
+                            rep["kind"] = "history"
+                            rep["history"] = ["c = %s()" % ("CNFizer" if kind == "cnf" else "PolarityCNFizer")] + ["c.convert(%s)" % c.serialize() for c in calls]
+                            json.dump(rep, open(chk.violations[-1][0], "w"), indent=1, default=str)
+                        except (OSError, ValueError):
+                            pass
+                    r["conv"] = None
+                if raised or not steps:
+                    continue
+                hstats["histories"] += 1
+                roots = [x for st in steps for x in st[0]]
+                hcases.append((roots, (lambda nm, kind=kind, steps=steps: "(%s, [%s])" % ("true" if kind == "pol" else "false",
+                                                                                         "; ".join("(%s)" % st[1](nm) for st in steps)))))
+                hmeta.append((kind, " ;; ".join(c.serialize()[:120] for c in calls)))
         if b == 0:
             chk.sample({"kind": "cnf", "formula": fs[-1].serialize()[:300]})
+            if hmeta:
+                chk.sample({"kind": "%s history (one object)" % hmeta[-1][0], "calls": hmeta[-1][1]})
+    hfiles = termcases.write(chk.dir, "cnfh", "From PySMT.models Require Import Oracles Cnf.", "bool * list (%s)" % STEP_T,
+                             CNF_HIST_OK.replace("STEP_T", STEP_T), hcases, shard=30)
+    hbad, herrs = termcases.run(hfiles)
+    chk.cov.setdefault("correspondence", {}).update({"cnf_history_cases": len(hcases), "cnf_history_calls": hstats["calls"],
+                                                     "cnf_history_disagreements": len(hbad) + len(herrs)})
+    for i in hbad[:4]:
+        chk.note("CNF model/implementation disagreement (%s) on the history %s" % hmeta[i])
+        chk.cov["correspondence"].setdefault("cnf_history_examples", []).append(list(hmeta[i]))
+    for e in herrs[:2]:
+        chk.note("CNF history case file error: %s" % e["error"][-400:])
     files = termcases.write(chk.dir, "cnf", "From PySMT.models Require Import Oracles Cnf.", CASE_T, OK_DEF.replace("CASE_T", CASE_T), cases, shard=60)
     bad, errs = termcases.run(files)
     chk.cov.setdefault("correspondence", {}).update({"cnf_cases": len(cases), "cnf_disagreements": len(bad) + len(errs),
@@ -422,7 +507,7 @@ def cnf_part(chk, rnd, tier):
         chk.cov["correspondence"].setdefault("cnf_examples", []).append(list(meta[i]))
     for e in errs[:2]:
         chk.note("CNF case file error: %s" % e["error"][-400:])
-    return not bad and not errs
+    return not bad and not errs and not hbad and not herrs
 
 
 # ------------------------------------------------------------------------------------------
@@ -487,12 +572,374 @@ class UFGen(object):
         return m.Iff(self.formula(d - 1), self.formula(d - 1))
 
 
+# ------------------------------------------------------------------------------------------
+# exact small-domain oracle for the pure equality/UF families (wide functions, histories)
+# ------------------------------------------------------------------------------------------
+def euf_pure(f):
+    op = _ops()
+    okn = (op.SYMBOL, op.INT_CONSTANT, op.BOOL_CONSTANT, op.AND, op.OR, op.NOT, op.IMPLIES, op.IFF, op.EQUALS, op.ITE, op.FUNCTION)
+    return all(n.node_type() in okn for n in tocoq.topo([f]))
+
+
+def euf_eval(n, env, funs, memo):
+    """Direct evaluation (own code): env symbol -> value, funs function symbol -> callable(tuple)."""
+    op = _ops()
+    if n in memo:
+        return memo[n]
+    t = n.node_type()
+    if t == op.SYMBOL:
+        v = env[n]
+    elif t in (op.INT_CONSTANT, op.BOOL_CONSTANT):
+        v = n.constant_value()
+    elif t == op.AND:
+        v = all([euf_eval(a, env, funs, memo) for a in n.args()])
+    elif t == op.OR:
+        v = any([euf_eval(a, env, funs, memo) for a in n.args()])
+    elif t == op.NOT:
+        v = not euf_eval(n.arg(0), env, funs, memo)
+    elif t == op.IMPLIES:
+        v = (not euf_eval(n.arg(0), env, funs, memo)) or euf_eval(n.arg(1), env, funs, memo)
+    elif t in (op.IFF, op.EQUALS):
+        v = euf_eval(n.arg(0), env, funs, memo) == euf_eval(n.arg(1), env, funs, memo)
+    elif t == op.ITE:
+        v = euf_eval(n.arg(1), env, funs, memo) if euf_eval(n.arg(0), env, funs, memo) else euf_eval(n.arg(2), env, funs, memo)
+    elif t == op.FUNCTION:
+        v = funs[n.function_name()](tuple(euf_eval(a, env, funs, memo) for a in n.args()))
+    else:
+        raise ValueError("euf_eval: node %s" % n)
+    memo[n] = v
+    return v
+
+
+def _dom(sym, ints=(0, 1)):
+    return (False, True) if sym.symbol_type().is_bool_type() else ints
+
+
+def _tables(rnd, fsyms):
+    """A few total interpretations of the function symbols: injective on argument tuples (so two
+    applications differ whenever their arguments do), and random ones over the small domain."""
+    def mk(kind, seed):
+        tabs = {}
+        for fs in fsyms:
+            ret_bool = fs.symbol_type().return_type.is_bool_type()
+            memo = {}
+
+            def fn(args, memo=memo, ret_bool=ret_bool, kind=kind, r=random.Random("%s|%s|%s" % (seed, fs.symbol_name(), kind))):
+                if args not in memo:
+                    if kind == "inj" and not ret_bool:
+                        memo[args] = 10 + len(memo)
+                    elif kind == "inj":
+                        memo[args] = (len(memo) % 2 == 0)
+                    else:
+                        memo[args] = (r.random() < 0.5) if ret_bool else r.choice((0, 1))
+                return memo[args]
+            tabs[fs] = fn
+        return tabs
+    s = rnd.getrandbits(32)
+    return [("injective", mk("inj", s)), ("random-a", mk("ra", s)), ("random-b", mk("rb", s))]
+
+
+def exact_ack_check(rnd, f, out, c2t, max_ext=4000):
+    """Exact refutation search over a small domain for pure equality/UF inputs:
+    (a) every interpretation (variables over {0,1}, several function tables) satisfying f extends
+        over the fresh constants to one satisfying out: first the canonical extension
+        c_app := value(app), then every value of the constants among the values in play plus one
+        new value per constant (enough for a pure equality formula);
+    (b) every assignment of variables and constants over {0,1} satisfying out satisfies f under
+        the function tables read off the constants, or under some table over the small domain.
+    Returns None or (kind, witness-dict)."""
+    nodes = tocoq.topo([f])
+    fsyms = sorted(set(n.function_name() for n in nodes if n.is_function_application()), key=lambda x: x.symbol_name())
+    fset = set(fsyms)
+    # the variables of f and of every recorded application (a reused object's result may mention
+    # constants of applications of earlier formulas)
+    vs = sorted(set(n for n in tocoq.topo([f] + list(c2t.values())) if n.is_symbol() and not n.symbol_type().is_function_type()
+                    and n not in c2t), key=lambda x: x.symbol_name())
+    ks = sorted((n for n in tocoq.topo([out]) if n.is_symbol() and n not in vs and not n.symbol_type().is_function_type()),
+                key=lambda x: x.symbol_name())
+    if len(vs) > 7 or len(ks) > 8:
+        return None
+    apps = sorted(c2t.items(), key=lambda kv: len(tocoq.topo([kv[1]])))
+    allf = sorted(set(t.function_name() for _, t in apps) | fset, key=lambda x: x.symbol_name())
+    tables = _tables(rnd, allf)
+    # (a)
+    for vals in itertools.product(*[_dom(v) for v in vs]):
+        env = dict(zip(vs, vals))
+        for tname, tabs in tables:
+            if euf_eval(f, env, tabs, {}) is not True:
+                continue
+            env2 = dict(env)
+            m0 = {}
+            for c, t in apps:
+                env2[c] = euf_eval(t, env, tabs, m0)
+            if all(k in env2 for k in ks) and euf_eval(out, env2, {}, {}) is True:
+                continue
+            inplay = set(v for v in env2.values() if not isinstance(v, bool))
+            cand = sorted(inplay | set(range(100, 100 + len(ks))))
+            doms = [(False, True) if k.symbol_type().is_bool_type() else cand for k in ks]
+            n, found = 1, False
+            for d in doms:
+                n *= len(d)
+            it = itertools.product(*doms) if n <= max_ext else (tuple(rnd.choice(d) for d in doms) for _ in range(max_ext))
+            for kv in it:
+                env3 = dict(env)
+                env3.update(zip(ks, kv))
+                if euf_eval(out, env3, {}, {}) is True:
+                    found = True
+                    break
+            if not found:
+                return ("complete", {"variables": {str(k): v for k, v in env.items()}, "function_table": tname,
+                                     "applications": {t.serialize(): euf_eval(t, env, tabs, {}) for _, t in apps},
+                                     "extensions_tried": min(n, max_ext), "exhaustive": n <= max_ext})
+    # (b)
+    syms = vs + ks
+    doms = [_dom(x) for x in syms]
+    total = 1
+    for d in doms:
+        total *= len(d)
+    it = itertools.product(*doms) if total <= 1024 else (tuple(rnd.choice(d) for d in doms) for _ in range(1024))
+    for vals in it:
+        env = dict(zip(syms, vals))
+        if euf_eval(out, env, {}, {}) is not True:
+            continue
+        tabs, conflict = {}, False
+        store = dict((fs, {}) for fs in allf)
+        for fs in allf:
+            tabs[fs] = (lambda args, d=store[fs], b=fs.symbol_type().return_type.is_bool_type(): d.get(args, False if b else 0))
+        for c, t in apps:
+            if c not in env:
+                env[c] = False if c.symbol_type().is_bool_type() else 0
+            a = tuple(euf_eval(x, env, tabs, {}) for x in t.args())
+            d = store[t.function_name()]
+            if a in d and d[a] != env[c]:
+                conflict = True
+            else:
+                d[a] = env[c]
+        if euf_eval(f, env, tabs, {}) is True:
+            continue
+        # some other function?  all tables over the small domain when there are few, else samples
+        ok = False
+        for _ in range(200):
+            for _, t2 in _tables(rnd, fsyms)[1:]:
+                if euf_eval(f, env, t2, {}) is True:
+                    ok = True
+                    break
+            if ok:
+                break
+        if not ok:
+            return ("sound", {"assignment": {str(k): v for k, v in env.items() if k in syms}, "tables_from_constants_conflict": conflict,
+                              "other_tables_tried": 400})
+    return None
+
+
+def report_exact(chk, what, wit, f, out, history=None):
+    expl = {"complete": "an interpretation satisfying the input has no extension over the fresh constants satisfying the output",
+            "sound": "an assignment satisfies the output but no interpretation of the eliminated functions makes the input true"}[what]
+    rep = {"kind": "history" if history else "input", "what": "ackermannization: " + expl, "formula": f.serialize(), "output": out.serialize(),
+           "witness": wit, "oracle": "exhaustive evaluation over the domain {0,1} (harness/c11.py: exact_ack_check)"}
+    if history:
+        rep["history"] = ["a = Ackermannizer()"] + ["a.do_ackermannization(%s)" % h.serialize() for h in history]
+        rep["repro"] = "one Ackermannizer object, the calls of `history` in order; the last result is `output`"
+    else:
+        rep["repro"] = repro("ack", f)
+    chk.violation(rep, key="ack-%s%s:%s" % ("hist-" if history else "", what, short_key(f)))
+
+
+class WideGen(object):
+    """Two or three applications of a function of arity 3-4 over 4-5 argument variables with
+    repeated arguments across positions (incl. the cross arrangement f(a,c,a) / f(b,d,c)), in
+    small Boolean combinations of equalities."""
+
+    def __init__(self, env, rnd):
+        from pysmt.typing import INT, FunctionType
+        self.m = m = env.formula_manager
+        self.rnd = rnd
+        self.vars = [m.Symbol(n, INT) for n in "abcde"]
+        self.f3 = m.Symbol("w3", FunctionType(INT, [INT, INT, INT]))
+        self.f4 = m.Symbol("w4", FunctionType(INT, [INT, INT, INT, INT]))
+
+    def apps(self):
+        r, m = self.rnd, self.m
+        fn = r.choice([self.f3, self.f3, self.f4])
+        ar = 3 if fn is self.f3 else 4
+        pool = r.sample(self.vars, r.choice([4, 4, 5]))
+        tuples = []
+        if r.random() < 0.35:
+            a, b, c, d = pool[:4]
+            t1, t2 = [a, c, a], [b, d, c]
+            perm = list(range(3))
+            r.shuffle(perm)
+            t1, t2 = [t1[i] for i in perm], [t2[i] for i in perm]
+            while len(t1) < ar:
+                k = r.randrange(len(t1) + 1)
+                x, y = r.choice(pool), r.choice(pool)
+                t1.insert(k, x)
+                t2.insert(k, y if r.random() < 0.5 else x)
+            tuples = [t1, t2]
+        while len(tuples) < r.choice([2, 2, 3]):
+            tuples.append([r.choice(pool) for _ in range(ar)])
+        return pool, [m.Function(fn, t) for t in tuples]
+
+    def formula(self):
+        r, m = self.rnd, self.m
+        pool, apps = self.apps()
+        def atom():
+            k = r.random()
+            if k < 0.4:
+                return m.Equals(*r.sample(apps, 2)) if len(apps) > 1 else m.Equals(apps[0], r.choice(pool))
+            if k < 0.8:
+                return m.Equals(*r.sample(pool, 2))
+            return m.Equals(r.choice(apps), r.choice(pool))
+        def form(d):
+            if d <= 0 or r.random() < 0.3:
+                a = atom()
+                return m.Not(a) if r.random() < 0.4 else a
+            k = r.choice(["and", "or", "implies", "not"])
+            if k == "and":
+                return m.And(form(d - 1), form(d - 1))
+            if k == "or":
+                return m.Or(form(d - 1), form(d - 1))
+            if k == "implies":
+                return m.Implies(form(d - 1), form(d - 1))
+            return m.Not(form(d - 1))
+        k = r.random()
+        if k < 0.3:
+            return m.Not(m.Equals(apps[0], apps[1]))
+        if k < 0.5:
+            eqs = [m.Equals(*r.sample(pool, 2)) for _ in range(r.choice([1, 2, 3]))]
+            return m.And(eqs + [m.Not(m.Equals(apps[0], apps[1]))])
+        return m.And(form(2), m.Not(m.Equals(apps[0], apps[1]))) if r.random() < 0.5 else form(2)
+
+
+class HistGen(object):
+    """Formulas for histories on ONE Ackermannizer: later formulas are built from applications
+    seen in earlier calls (all / some / none of their applications)."""
+
+    def __init__(self, env, rnd):
+        from pysmt.typing import INT, FunctionType
+        self.m = m = env.formula_manager
+        self.rnd = rnd
+        self.xs = [m.Symbol(n, INT) for n in "xyz"]
+        self.f = m.Symbol("f", FunctionType(INT, [INT]))
+        self.g = m.Symbol("g", FunctionType(INT, [INT, INT]))
+
+    def new_app(self, d=1):
+        r, m = self.rnd, self.m
+        arg = lambda: r.choice(self.xs) if d <= 0 or r.random() < 0.7 else self.new_app(d - 1)
+        return m.Function(self.f, [arg()]) if r.random() < 0.65 else m.Function(self.g, [arg(), arg()])
+
+    def formula(self, seen, mode):
+        r, m = self.rnd, self.m
+        seen = list(seen)
+        def term():
+            if mode == "all" and seen:
+                return r.choice(seen + self.xs[:1]) if r.random() < 0.8 else r.choice(self.xs)
+            if mode == "some" and seen and r.random() < 0.5:
+                return r.choice(seen)
+            if r.random() < 0.25:
+                return r.choice(self.xs)
+            return self.new_app() if mode != "all" or not seen else r.choice(seen)
+        def atom():
+            a = m.Equals(term(), term())
+            return m.Not(a) if r.random() < 0.4 else a
+        k = r.random()
+        if k < 0.35 and len(seen) >= 2 and mode == "all":
+            # x = y & f(x) != f(y) over two seen applications of one function
+            byf = {}
+            for t in seen:
+                byf.setdefault(t.function_name(), []).append(t)
+            cands = [v for v in byf.values() if len(v) >= 2]
+            if cands:
+                t1, t2 = r.sample(r.choice(cands), 2)
+                eqs = [m.Equals(a, b) for a, b in zip(t1.args(), t2.args()) if a is not b]
+                return m.And(eqs + [m.Not(m.Equals(t1, t2))])
+        n = r.choice([1, 2, 2, 3])
+        parts = [atom() for _ in range(n)]
+        return m.And(parts) if r.random() < 0.6 else m.Or(parts)
+
+
+def _ren_key(n, cmap, memo):
+    """Structural key up to And/Or order, orientation of = / <->, and the names of the fresh
+    constants (cmap: constant -> key of its application)."""
+    op = _ops()
+    if n in memo:
+        return memo[n]
+    if n in cmap:
+        k = ("CONST", cmap[n])
+    else:
+        ks = [_ren_key(a, cmap, memo) for a in n.args()]
+        nt = n.node_type()
+        if nt in (op.AND, op.OR):
+            ks = tuple(sorted(set(ks), key=repr))
+        elif nt in (op.EQUALS, op.IFF):
+            ks = tuple(sorted(ks, key=repr))
+        else:
+            ks = tuple(ks)
+        pay = tocoq.skey(n)[1] if not n.args() else None
+        k = (nt, pay, ks)
+    memo[n] = k
+    return k
+
+
+def _split_result(out, c2t):
+    """(set of implications, rewritten formula) of a do_ackermannization result, decided from the
+    public constant->application dictionary: there are implications iff some function has two
+    recorded applications."""
+    cnt = {}
+    for t in c2t.values():
+        cnt[t.function_name()] = cnt.get(t.function_name(), 0) + 1
+    if not any(v >= 2 for v in cnt.values()):
+        return [], out
+    if not (out.is_and() and len(out.args()) == 2):
+        return None, out
+    imps, sub = out.arg(0), out.arg(1)
+    return (list(imps.args()) if imps.is_and() else [imps]), sub
+
+
+def compare_with_fresh(env, f, out, c2t):
+    """(i) the same formula on a NEW object: same rewritten formula and every implication of the
+    new object's result among the reused object's, up to the names of the constants."""
+    from pysmt.rewritings import Ackermannizer
+    fr = Ackermannizer(env)
+    fout = fr.do_ackermannization(f)
+    fc2t = fr.get_const_to_term_dict()
+    k1 = dict((c, tocoq.skey(t)) for c, t in c2t.items())
+    k2 = dict((c, tocoq.skey(t)) for c, t in fc2t.items())
+    i1, s1 = _split_result(out, c2t)
+    i2, s2 = _split_result(fout, fc2t)
+    m1, m2 = {}, {}
+    if i1 is None or i2 is None:
+        return "the result is not of the form And(consistency, rewritten formula) although one function has two recorded applications: %s" % out.serialize()
+    if _ren_key(s1, k1, m1) != _ren_key(s2, k2, m2):
+        return "the rewritten formula differs from a new object's: %s vs %s" % (s1.serialize(), s2.serialize())
+    have = set(_ren_key(i, k1, m1) for i in i1)
+    for i in i2:
+        if _ren_key(i, k2, m2) not in have:
+            return "the consistency implication %s of a new object's result is missing" % i.serialize()
+    return None
+
+
 ACK_T = "term * nat * list string * term * nat"
 ACK_OK = """
 Definition ok (c : ACK_T) : bool :=
   let '(f, guess, names, exp, eguess) := c in
   let (res, st) := ackermannize f (init_astate guess names) in
   sac_eqb res exp && Nat.eqb (fresh_guess (amgr st)) eguess.
+"""
+
+
+ACK_HIST_OK = """
+(* a history on ONE Ackermannizer: _terms_dict and _funs_to_args persist between the calls; the
+   manager state is the one observed before each call *)
+Fixpoint run_hist (steps : list (ACK_T)) (tm : list (term * term)) (fs : list (var * list (list term))) : bool :=
+  match steps with
+  | [] => true
+  | (f, guess, names, exp, eguess) :: r =>
+      let st := {| amgr := {| fresh_guess := guess; mnames := names |}; terms := tm; funs := fs |} in
+      let (res, st') := ackermannize f st in
+      sac_eqb res exp && Nat.eqb (fresh_guess (amgr st')) eguess && run_hist r (terms st') (funs st')
+  end.
+Definition ok (c : list (ACK_T)) : bool := run_hist c [] [].
 """
 
 
@@ -510,7 +957,7 @@ def nested_class(f):
     return False
 
 
-def search_ack(chk, env, rnd, f, out, acker, stats):
+def search_ack(chk, env, rnd, f, out, acker, stats, n_complete=4, n_sound=12, small=False):
     from . import refeval
     apps_left = [n for n in tocoq.topo([out]) if n.is_function_application()]
     if apps_left:
@@ -520,8 +967,8 @@ def search_ack(chk, env, rnd, f, out, acker, stats):
     c2t = acker.get_const_to_term_dict()
     apps = sorted(c2t.items(), key=lambda kv: len(tocoq.topo([kv[1]])))
     # (a) completeness: each constant := the value of its application
-    for _ in range(4):
-        it = refeval.random_interp(rnd, [f], int_range=(-2, 2), div0="raise")
+    for _ in range(n_complete):
+        it = refeval.random_interp(rnd, [f], int_range=((0, 1) if small else (-2, 2)), div0="raise")
         try:
             vf, ex = refeval.evaluate_ex(f, it)
             if not ex:
@@ -541,8 +988,8 @@ def search_ack(chk, env, rnd, f, out, acker, stats):
         return
     # (b) soundness: an interpretation of the output's symbols satisfying it, with the tables
     # F(value of args) := value of c_app, satisfies the input
-    for _ in range(12):
-        it = refeval.random_interp(rnd, [out], int_range=(-1, 1), div0="raise")
+    for _ in range(n_sound):
+        it = refeval.random_interp(rnd, [out], int_range=((0, 1) if small else (-1, 1)), div0="raise")
         try:
             vo, ex = refeval.evaluate_ex(out, it)
             if vo is not True or not ex:
@@ -577,7 +1024,10 @@ def ack_part(chk, rnd, tier):
     from pysmt.rewritings import Ackermannizer
     nbatches = 6 if tier == "quick" else 50
     cases, meta = [], []
-    stats = {"complete_checked": 0, "sound_checked": 0, "skipped": 0, "nested_inputs": 0}
+    stats = {"complete_checked": 0, "sound_checked": 0, "skipped": 0, "nested_inputs": 0, "wide_inputs": 0, "exact_checked": 0,
+             "histories": 0, "history_calls": 0, "history_calls_reusing_all": 0, "history_calls_reusing_some": 0,
+             "history_calls_reusing_none": 0, "history_vs_new_object_differs": 0}
+    hcases, hmeta, esc = [], [], []
     for b in range(nbatches):
         env = fresh_env()
         m = env.formula_manager
@@ -595,20 +1045,94 @@ def ack_part(chk, rnd, tier):
             fg = FormulaGen(env, rnd, Config(quantifiers=False, strings=False, arrays=False, div=False, nonlinear=False, max_arity=3))
             for i in range(20):
                 fs.append(fg.gen(fg.types[0], rnd.randint(1, 4)))
+        wg = WideGen(env, rnd)
+        nwide = 25 if tier == "quick" else 60
+        wide = [wg.formula() for _ in range(nwide)]
+        if b == 0:
+            a_, b_, c_, d_ = wg.vars[:4]
+            t1, t2 = m.Function(wg.f3, [a_, c_, a_]), m.Function(wg.f3, [b_, d_, c_])
+            wide += [m.And(m.Equals(a_, b_), m.Equals(c_, d_), m.Not(m.Equals(a_, c_)), m.Not(m.Equals(t1, t2))), m.Not(m.Equals(t1, t2)),
+                     m.Not(m.Equals(m.Function(wg.f3, [a_, b_, c_]), m.Function(wg.f3, [b_, a_, c_])))]
+        stats["wide_inputs"] += len(wide)
+        fs += wide
+        wide = set(wide)
         for f in fs:
             before = (m._fresh_guess, list(m.symbols.keys()))
             acker = Ackermannizer(env)
             out = acker.do_ackermannization(f)
             after = m._fresh_guess
+            if f in wide and euf_pure(f):
+                res = exact_ack_check(rnd, f, out, acker.get_const_to_term_dict())
+                stats["exact_checked"] += 1
+                if res is not None:
+                    report_exact(chk, res[0], res[1], f, out)
             cases.append(([f, out], (lambda nm, f=f, out=out, before=before, after=after:
                                      "(%s, %d%%nat, [%s], %s, %d%%nat)" % (nm[f], before[0], "; ".join(tocoq.cstr(n) for n in before[1]), nm[out], after))))
             meta.append((f.serialize()[:400], nested_class(f)))
+            esc.append((f, env))
             chk.count(("ack", tocoq.skey(f)), nontrivial=bool(acker.get_term_to_const_dict()))
             if nested_class(f):
                 stats["nested_inputs"] += 1
             search_ack(chk, env, rnd, f, out, acker, stats)
+        # ---- histories on one Ackermannizer object ----
+        hg = HistGen(env, rnd)
+        nh = 8 if tier == "quick" else 20
+        for h in range(nh):
+            acker = Ackermannizer(env)
+            steps, calls = [], []
+            ncalls = rnd.choice([2, 3, 3, 4])
+            directed = (b == 0 and h == 0)
+            for k in range(ncalls):
+                seen = list(acker.get_term_to_const_dict().keys())
+                if directed:
+                    x_, y_ = hg.xs[0], hg.xs[1]
+                    fx, fy = m.Function(hg.f, [x_]), m.Function(hg.f, [y_])
+                    f = [m.Equals(fx, x_), m.Not(m.Equals(fy, x_)), m.And(m.Equals(x_, y_), m.Not(m.Equals(fx, fy))), m.Equals(fx, fy)][k % 4]
+                    mode = "directed"
+                else:
+                    mode = "none" if k == 0 else rnd.choice(["all", "all", "some", "none"])
+                    f = hg.formula(seen, mode)
+                napps = [n for n in tocoq.topo([f]) if n.is_function_application()]
+                if k > 0 and napps:
+                    old = sum(1 for n in napps if n in set(seen))
+                    stats["history_calls_reusing_" + ("all" if old == len(napps) else "some" if old else "none")] += 1
+                before = (m._fresh_guess, list(m.symbols.keys()))
+                out = acker.do_ackermannization(f)
+                after = m._fresh_guess
+                calls.append(f)
+                steps.append((f, before, out, after))
+                stats["history_calls"] += 1
+                chk.count(("ack-hist", tuple(tocoq.skey(c) for c in calls)), nontrivial=bool(napps))
+                c2t = acker.get_const_to_term_dict()
+                if any(n.is_function_application() for n in tocoq.topo([out])):
+                    chk.violation({"kind": "history", "what": "ackermannization on a reused object: the result still contains an application",
+                                   "history": [c.serialize() for c in calls], "output": out.serialize()}, key="ack-hist-shape:%s" % short_key(f))
+                res = exact_ack_check(rnd, f, out, c2t)
+                stats["exact_checked"] += 1
+                if res is not None:
+                    report_exact(chk, res[0], res[1], f, out, history=calls)
+                diff = compare_with_fresh(env, f, out, c2t)
+                if diff:
+                    stats["history_vs_new_object_differs"] += 1
+                    chk.cov.setdefault("correspondence", {}).setdefault("history_vs_new_object", []).append(
+                        {"history": [c.serialize() for c in calls], "difference": diff[:300]})
+            stats["histories"] += 1
+            roots = [x for st in steps for x in (st[0], st[2])]
+            hcases.append((roots, (lambda nm, steps=steps: "[%s]" % "; ".join(
+                "(%s, %d%%nat, [%s], %s, %d%%nat)" % (nm[f], bf[0], "; ".join(tocoq.cstr(n) for n in bf[1]), nm[out], af)
+                for (f, bf, out, af) in steps))))
+            hmeta.append(" ;; ".join(c.serialize()[:150] for c in calls))
         if b == 0:
             chk.sample({"kind": "ackermannization", "formula": fs[-1].serialize()[:300]})
+            chk.sample({"kind": "ackermannization history (one object)", "calls": hmeta[-1]})
+    hfiles = termcases.write(chk.dir, "ackh", "From PySMT.models Require Import Oracles Cnf Ackermann.", "list (%s)" % ACK_T, ACK_HIST_OK.replace("ACK_T", ACK_T), hcases, shard=30)
+    hbad, herrs = termcases.run(hfiles)
+    chk.cov.setdefault("correspondence", {}).update({"ack_history_cases": len(hcases), "ack_history_disagreements": len(hbad) + len(herrs)})
+    for i in hbad[:4]:
+        chk.note("Ackermann model/implementation disagreement on the history %s" % hmeta[i])
+        chk.cov["correspondence"].setdefault("ack_history_examples", []).append(hmeta[i])
+    for e in herrs[:2]:
+        chk.note("Ackermann history case file error: %s" % e["error"][-400:])
     files = termcases.write(chk.dir, "ack", "From PySMT.models Require Import Oracles Cnf Ackermann.", ACK_T, ACK_OK.replace("ACK_T", ACK_T), cases, shard=40)
     bad, errs = termcases.run(files)
     # models/Ackermann.v is the REPAIRED code (build/fixes/C11_ackermann_nested.diff): while the
@@ -624,7 +1148,26 @@ def ack_part(chk, rnd, tier):
         chk.cov["correspondence"].setdefault("ack_examples", []).append(meta[i][0])
     for e in errs[:2]:
         chk.note("Ackermann case file error: %s" % e["error"][-400:])
-    return not bad and not errs
+    if (bad or hbad) and not chk.violations:
+        # the correspondence differs: escalated search on the disagreeing inputs before settling
+        # for no-failing-input-found
+        chk.note("escalated Ackermann search on %d disagreeing inputs" % len(bad))
+        stats["escalated_inputs"] = 0
+        for i in bad[:40]:
+            f, env = esc[i]
+            import pysmt.environment as E
+            E.pop_env()
+            E.push_env(env)
+            acker = Ackermannizer(env)
+            out = acker.do_ackermannization(f)
+            stats["escalated_inputs"] += 1
+            if euf_pure(f):
+                res = exact_ack_check(rnd, f, out, acker.get_const_to_term_dict())
+                if res is not None:
+                    report_exact(chk, res[0], res[1], f, out)
+                    continue
+            search_ack(chk, env, rnd, f, out, acker, stats, n_complete=80, n_sound=160, small=True)
+    return not bad and not errs and not hbad and not herrs
 
 
 def run(tier):
